@@ -20,7 +20,7 @@ EXPLANATION = (
 ASSUMPTIONS = ["that the rendered text is valid Python for every input and that pysnmp accepts it is not decided "
                "(needs rendering); only the producer/consumer agreement is",
                "escaping of texts inside string literals is C15.R4"]
-TECHNIQUE = 'producer/consumer agreement over the Jinja2 AST and the IR builders; sibling comparison'
+TECHNIQUE = 'producer/consumer agreement over the Jinja2 AST and the IR builders; sibling comparison; rendering-path enumeration of the Jinja2 AST (each-choice over ifs, 0-3 loop iterations) parsed as Python, kind class per class region'
 
 INTER = ir.INTER
 PYSNMP = 'pysmi/codegen/pysnmp.py'
